@@ -3,3 +3,6 @@ import SynKitModel.Graph
 import SynKitModel.Store
 import SynKitModel.Match
 import SynKitModel.ITS
+import SynKitModel.GraphAlg
+import SynKitModel.SubgraphSearch
+import SynKitModel.GraphMatcherEngine
